@@ -28,10 +28,12 @@ def ik_default(p, svc, prod):
 
 def known_b(c):
     """Signature of known finding B: reader is region-suffixed and the foreign id extends the reader's
-    unsuffixed IK id, or the foreign id string equals the reader's own IK id."""
+    unsuffixed IK id, or the two sessions run under DIFFERENT suffix configurations and the documented id construction
+    gives both partitions the same id string.  (Two different partition ids under one configuration never share an id
+    string by construction; if they do, that is a new violation, e.g. an id normalised before use.)"""
     p, svc, prod = unh(c["P"]), unh(c["Svc"]), unh(c["Prod"])
     ikq = unh(c["IKQ"])
-    if c["IKQ"] == c["IKP"]:
+    if c["IKQ"] == c["IKP"] and c["Suffix"] != c["SuffixQ"]:
         return True
     return c["Suffix"] is not None and ikq.startswith(ik_default(p, svc, prod))
 
@@ -57,6 +59,9 @@ def main(tier, seed, replay):
             return ck.finish()
         cases = json.load(open(outp))["cases"]
         os.remove(outp)
+        refused = [c for c in cases if c.get("Refused")]
+        cases = [c for c in cases if not c.get("Refused")]
+        ck.cov["non_empty_ids_refused_by_the_sdk"] = len(refused)
     finally:
         if os.path.exists(binp):
             os.remove(binp)
